@@ -62,10 +62,11 @@ def run(ctx):
         units, space, nfun = vcgen.emit_units(d, "L1,L5", 64, noalign=1, corpus=corpus, stride=8)
     else:
         units, space, nfun = vcgen.emit_units(d, "L1,L5", 64, noalign=0, corpus=corpus, stride=1)
-    # boundary integers of the serialised form (constant n / m of 253..257): always, as a unit of its own
+    # boundary integers of the serialised form (constant n / m of 253..257) and inline literals shared by instructions of
+    # different width (LL): always, as a unit of its own
     db = os.path.join(scratch, "pb")
     os.makedirs(db)
-    ub, _, nb = vcgen.emit_units(db, "LB", 1)
+    ub, _, nb = vcgen.emit_units(db, "LB,LL", 1)
     units += ub
     nfun += nb
     jobs = []
